@@ -612,7 +612,8 @@ func (ex *Exec) convert(st *State, site ssa.Instruction, x Value, from, to types
 			})
 		case *Term:
 			if !xv.IsConst() {
-				return opaqueFloat
+				_, fsigned, _ := intWidth(from)
+				return intToFloatTree(xv, fsigned, is32)
 			}
 			_, fsigned, _ := intWidth(from)
 			if fsigned {
@@ -802,4 +803,30 @@ func (ex *Exec) loadTyped(st *State, p Value, t types.Type) (v Value) {
 		}
 	}()
 	return ex.load(st, p)
+}
+
+// intToFloatTree converts an integer term to a float value when it is a tree of constants selected by boolean terms
+// (ite with constant leaves); anything else becomes an opaque float (usable for logging only).
+func intToFloatTree(t *Term, signed, is32 bool) *FloatV {
+	if t.IsConst() {
+		var f float64
+		if signed {
+			f = float64(t.ConstS())
+		} else {
+			f = float64(t.ConstU())
+		}
+		if is32 {
+			f = float64(float32(f))
+		}
+		return &FloatV{F: f}
+	}
+	if t.Op == OpIte {
+		a := intToFloatTree(t.Args[1], signed, is32)
+		b := intToFloatTree(t.Args[2], signed, is32)
+		if a.Opq || b.Opq {
+			return opaqueFloat
+		}
+		return &FloatV{C: t.Args[0], A: a, B: b}
+	}
+	return opaqueFloat
 }
